@@ -89,5 +89,52 @@ def hasInvalidFraming (h : Headers) : Bool := h.invalidCl || h.teFinalNotChunked
 /-- `Headers::close()`: the static header set of 400 / 431 responses -/
 def closeStatic : Headers := newNodate.setConnectionClose
 
+/-- `get_count` -/
+def getCount (h : Headers) : Nat := h.fields.length
+
+/-- the inner loop shared by `get_transfer_encoding` / `get_connection_values`:
+    comma-split, each element trimmed **at the start only** (`trim_ascii_start`) -/
+def startTrimmedElems (v : Bytes) : List Bytes := (splitOn COMMA v).map trimStart
+
+/-- `get_transfer_encoding` -/
+def getTransferEncoding (h : Headers) : List Bytes :=
+  (h.getAll TRANSFER_ENCODING).flatMap fun kv => startTrimmedElems kv.2
+
+/-- `get_connection_values` -/
+def getConnectionValues (h : Headers) : List Bytes :=
+  (h.getAll CONNECTION).flatMap fun kv => startTrimmedElems kv.2
+
+/-- `is_100_continue` -/
+def is100Continue (h : Headers) : Bool :=
+  match h.get (str "expect") with
+  | some v => eqIgnoreCase v (str "100-continue")
+  | none => false
+
+end Headers
+
+/-- one call of the mutating public interface of `Headers` (the operations C19 quantifies over) -/
+inductive HdrOp where
+  | add (name value : Bytes)
+  | replace (name value : Bytes)
+  | remove (name : Bytes)
+  /-- `set_content_length(len)`; the Rust argument is `Option<u64>` -/
+  | setCl (len : Option Nat)
+  | setTeChunked
+  | setConnClose
+  deriving Repr, DecidableEq
+
+namespace Headers
+
+def applyOp (h : Headers) : HdrOp → Headers
+  | .add n v => h.add n v
+  | .replace n v => h.replace n v
+  | .remove n => h.remove n
+  | .setCl n => h.setContentLength n
+  | .setTeChunked => h.setTransferEncodingChunked
+  | .setConnClose => h.setConnectionClose
+
+/-- the collection after a sequence of calls -/
+def run (init : Headers) (ops : List HdrOp) : Headers := ops.foldl applyOp init
+
 end Headers
 end Khttp
